@@ -1018,7 +1018,9 @@ class InBodyPhase(Phase):
         else:
             if self.tree.openElements[1].parent:
                 self.tree.openElements[1].parent.removeChild(self.tree.openElements[1])
-            while self.tree.openElements[-1].name != "html":
+            # pop everything up to, but not including, the root html element
+            # (a foreign element may be named "html" as well)
+            while len(self.tree.openElements) > 1:
                 self.tree.openElements.pop()
             self.tree.insertElement(token)
             self.parser.phase = self.parser.phases["inFrameset"]
